@@ -92,6 +92,8 @@ int main(void) {
             dead = 0; write_file(fsave, "#\n", 2); continue;
         }
         if (dead) { printf("DEAD\n"); continue; }
+        /* whatever an earlier, unrelated call left in errno must not influence an operation: every op starts with a stale ENOMEM */
+        errno = ENOMEM;
         if (QV_TRY(10)) {
             size_t nl;
             if (!strcmp(op, "put")) {
